@@ -33,8 +33,10 @@ Expo(i, j, n) == ((2 * Brev(i, Log2(n)) + 1) * j) % (2 * n)
 IsPsi(r, n, q) == PowI(r, n, q) = q - 1 /\ \A s \in 2..(r-1) : PowI(s, n, q) # q - 1
 RECURSIVE SumF(_, _)
 SumF(f, k) == IF k = 0 THEN 0 ELSE f[k] + SumF(f, k-1)
-EvalAt(a, e, r, q) == SumF([j \in 1..Len(a) |-> Mod(Mod(a[j], q) * PowI(r, (e * (j-1)) % (2 * Len(a)), q), q)], Len(a)) % q
-NttDef(a, r, q) == [i \in 1..Len(a) |-> EvalAt(a, 2 * Brev(i-1, Log2(Len(a))) + 1, r, q)]
+\* pw[k+1] = r^k mod q for k = 0..2N-1 (computed once per event)
+PowTable(r, n, q) == [k \in 1..(2*n) |-> PowI(r, k-1, q)]
+EvalAt(a, e, pw, q) == SumF([j \in 1..Len(a) |-> Mod(Mod(a[j], q) * pw[((e * (j-1)) % (2 * Len(a))) + 1], q)], Len(a)) % q
+NttDefT(a, pw, q) == [i \in 1..Len(a) |-> EvalAt(a, 2 * Brev(i-1, Log2(Len(a))) + 1, pw, q)]
 Negacyclic(a, b, q) ==
   LET n == Len(a) IN
   [k \in 1..n |-> SumF([i \in 1..n |-> IF i <= k THEN Mod(a[i] * b[k-i+1], q)
@@ -43,7 +45,9 @@ AllBelow(v, b) == \A i \in 1..Len(v) : v[i] >= 0 /\ v[i] < b
 CongVec(u, v, q) == Len(u) = Len(v) /\ \A i \in 1..Len(u) : Mod(u[i], q) = Mod(v[i], q)
 
 NttSmall(e) ==
-  LET q == e.q  r == e.root  n == e.n IN
+  LET q == e.q  r == e.root  n == e.n
+      pwt == PowTable(r, n, q)
+      NttDef(a, rr, qq) == NttDefT(a, pwt, qq) IN
   /\ IsPsi(r, n, q)
   /\ \A k \in 1..Len(e.roots) : e.roots[k] = r                          \* independently constructed tables agree
   /\ \A k \in 1..Len(e.fwd) :                                           \* exact forward transform of reduced inputs
